@@ -100,6 +100,11 @@ func genTail(t *rapid.T) Tail {
 				s.Kind = "ascii"
 			}
 		}
+		if tiny && s.Kind == "empty" {
+			// with a tiny queue delivered lines are aligned with the appended ones by content: identical lines would make
+			// the position of a gap ambiguous
+			s.Kind = "ascii"
+		}
 		if tiny && s.Match && rapid.IntRange(0, 2).Draw(t, "burst") == 0 {
 			s.N = rapid.SampledFrom([]int{60, 120, 250}).Draw(t, "burstn")
 			if s.Kind == "long" || s.Kind == "huge" || s.Kind == "buf4k" {
